@@ -34,25 +34,19 @@ type Seed struct {
 	FI     FI  // a frame description that matches the stream
 	HdrLen int // bytes up to and including the last header byte before entropy-coded data
 	Small  bool
-	CostMs int64 // measured decode time of the valid stream on its first home entry point
+	CostMs int64 // estimated decode cost (see estimateCost)
 }
 
-// MeasureSeeds runs every seed once (in the children) to learn its decode cost.
-func MeasureSeeds(seeds []*Seed, workers int) {
-	cs := make([]Case, len(seeds))
-	for i, s := range seeds {
-		cs[i] = Case{Entry: s.Home[0], Data: s.Data, Seed: s.Name, Mut: "valid", Fam: s.Fam}
-		if entryByName[s.Home[0]].Codec {
-			f := s.FI
-			cs[i].FI = &f
-		}
-	}
-	res := RunCases(runCfg{Workers: workers, Timeout: watchdog, ASLimit: asLimit}, cs)
-	for i := range seeds {
-		seeds[i].CostMs = res[i].Ms
-		if res[i].Status == "timeout" {
-			seeds[i].CostMs = watchdog.Milliseconds()
-		}
+// estimateCost: a deterministic (timing independent) estimate of the decode cost in ms,
+// from the family and the declared number of samples. Only used to thin the mutation sets
+// of expensive streams so that a tier fits its time budget.
+func estimateCost(s *Seed) int64 {
+	n := int64(s.FI.W) * int64(s.FI.H) * int64(max(1, int(s.FI.SPP)))
+	switch s.Fam {
+	case famJ2K:
+		return 2 + n/400
+	default:
+		return n / 20000
 	}
 }
 
@@ -128,6 +122,7 @@ func BuildCorpus(rng *Rand, thorough bool) (seeds []*Seed, notes []string) {
 		if s.HdrLen <= 0 || s.HdrLen > len(data) {
 			s.HdrLen = min(len(data), 64)
 		}
+		s.CostMs = estimateCost(s)
 		seeds = append(seeds, s)
 	}
 	try := func(what string, f func() ([]byte, error)) []byte {
